@@ -11,6 +11,7 @@ import (
 	"sort"
 	"strings"
 	"sync"
+	"sync/atomic"
 	"time"
 
 	te "github.com/ricochet1k/termemu"
@@ -145,7 +146,17 @@ func styleOnly(detail string) bool {
 	return true
 }
 
-func has(s string, chars string) bool { return strings.ContainsAny(s, chars) }
+// hasProj: one of the named projections diverged (prefix match: "M" covers Mgeo/Msty/Mkbd, "R" covers R0/R1).
+func hasProj(clause string, names ...string) bool {
+	for _, p := range strings.Split(clause, "+") {
+		for _, n := range names {
+			if strings.HasPrefix(p, n) {
+				return true
+			}
+		}
+	}
+	return false
+}
 
 // owns decides whether a finding is a violation of property p.
 func owns(p string, f finding) bool {
@@ -159,32 +170,38 @@ func owns(p string, f finding) bool {
 	}
 	cl := classesOf(f.Tags)
 	proj := f.Clause
-	state := has(proj, "MAR")
+	act, inact := "M", "A" // projections of the active / inactive buffer are not known here; use both
+	_ = act
+	_ = inact
+	content := hasProj(proj, "Mgeo", "Ageo", "R")
 	switch p {
 	case "C03":
-		return cl["text"] && state
+		return cl["text"] && content
 	case "C04":
-		return cl["motion"] && state
+		return cl["motion"] && content
 	case "C05":
-		return cl["erase"] && state
+		return cl["erase"] && content
 	case "C06":
-		return cl["scroll"] && state
+		return cl["scroll"] && content
 	case "C07":
-		return (cl["sgr"] && has(proj, "MAE")) || (has(proj, "R") && styleOnly(f.Detail))
+		return hasProj(proj, "Msty", "Asty") || (cl["sgr"] && hasProj(proj, "E")) || (hasProj(proj, "R") && styleOnly(f.Detail))
 	case "C09":
-		return f.Kind == "framing" || has(proj, "G") || ((cl["unknown"] || cl["dcs"] || cl["c0other"]) && proj != "") || (cl["osc"] && has(proj, "VEMAR"))
+		return f.Kind == "framing" || hasProj(proj, "G") || ((cl["unknown"] || cl["dcs"] || cl["c0other"]) && proj != "") || (cl["osc"] && proj != "")
 	case "C10":
-		return cl["bell"] && has(proj, "E")
+		return cl["bell"] && hasProj(proj, "E")
 	case "C14":
-		return has(proj, "W")
+		return hasProj(proj, "W")
 	case "C17":
-		return cl["mode"] && proj != ""
+		return (cl["mode"] && proj != "") || hasProj(proj, "V")
 	case "C18":
 		return cl["resize"] && proj != ""
 	case "C19":
-		return cl["kbd"] && has(proj, "MAW")
+		return hasProj(proj, "Mkbd", "Akbd") || (cl["kbd"] && hasProj(proj, "W"))
 	case "C20":
-		return false
+		// lock-step of the grid buffer against the model under the grid policy: together with the
+		// span buffer's agreement with the same model (all other checks) a content divergence
+		// here separates the two buffers
+		return strings.Contains(f.Tags, "") && f.Grid && content
 	}
 	return false
 }
@@ -403,8 +420,24 @@ func main() {
 	jobs := make(chan int, len(cases))
 	results := make([]caseResult, len(cases))
 	var wg sync.WaitGroup
+	// watchdog: a case that does not finish is a wedge of the implementation (or of the model
+	// driver); give up at once so that the supervisor can attribute it
+	started := make([]int64, *workers)
+	go func() {
+		for {
+			time.Sleep(500 * time.Millisecond)
+			now := time.Now().UnixNano()
+			for w := range started {
+				if t0 := atomic.LoadInt64(&started[w]); t0 != 0 && now-t0 > int64(15*time.Second) {
+					fmt.Fprintf(os.Stderr, "watchdog: a case has been running for more than 15 s\n")
+					os.Exit(97)
+				}
+			}
+		}
+	}()
 	for w := 0; w < *workers; w++ {
 		wg.Add(1)
+		w := w
 		go func() {
 			defer wg.Done()
 			d, err := startDriver(*drvPath, *widths)
@@ -422,7 +455,9 @@ func main() {
 					marker = filepath.Join(*inflight, fmt.Sprintf("case-%d.json", idx))
 					_ = os.WriteFile(marker, []byte(cases[idx].String()), 0o644)
 				}
+				atomic.StoreInt64(&started[w], time.Now().UnixNano())
 				results[idx] = runCase(&cases[idx], d, runOpts{probeLock: *prop == "C15"})
+				atomic.StoreInt64(&started[w], 0)
 				if marker != "" {
 					_ = os.Remove(marker)
 				}
@@ -543,8 +578,16 @@ func main() {
 			fnd := v.Finding
 			for _, f := range res.Findings {
 				if owns(*prop, f) {
-					fnd = f
-					break
+					excused := false
+					for k := range known {
+						if known[k].matches(*prop, &small, f) {
+							excused = true
+						}
+					}
+					if !excused {
+						fnd = f
+						break
+					}
 				}
 			}
 			path := filepath.Join(*replayDir, fmt.Sprintf("%s-%d-%d.json", *prop, *seed, n))
